@@ -69,6 +69,7 @@ theorem touches_comparable (c : Call) (hc : ∀ s d, c ≠ .copyFile s d) (fs : 
     List.not_mem_nil, or_false, exists_eq_left]
   case mkdirP p => exact Or.inl h
   case mkTemp dir => subst h; exact Or.inr (List.prefix_append _ _)
+  case mkTempLink dir t => subst h; exact Or.inr (List.prefix_append _ _)
   case fallocate p n => subst h; exact Or.inl (List.prefix_refl _)
   case writeAt p o d => subst h; exact Or.inl (List.prefix_refl _)
   case truncate p n => subst h; exact Or.inl (List.prefix_refl _)
@@ -77,6 +78,10 @@ theorem touches_comparable (c : Call) (hc : ∀ s d, c ≠ .copyFile s d) (fs : 
   case unlink p => subst h; exact Or.inl (List.prefix_refl _)
   case removeTree p => exact Or.inr h
   case rename s d =>
+    rcases h with rfl | rfl
+    · exact ⟨_, Or.inl rfl, Or.inl (List.prefix_refl _)⟩
+    · exact ⟨_, Or.inr rfl, Or.inl (List.prefix_refl _)⟩
+  case renameLink s d =>
     rcases h with rfl | rfl
     · exact ⟨_, Or.inl rfl, Or.inl (List.prefix_refl _)⟩
     · exact ⟨_, Or.inr rfl, Or.inl (List.prefix_refl _)⟩
